@@ -11,6 +11,8 @@ import (
 	"sort"
 	"strings"
 
+	"dcverif/internal/ssax"
+
 	"golang.org/x/tools/go/callgraph"
 	"golang.org/x/tools/go/callgraph/cha"
 	"golang.org/x/tools/go/callgraph/vta"
@@ -23,18 +25,20 @@ const Module = "github.com/lidofinance/dc4bc"
 
 // Prog is the loaded program.
 type Prog struct {
-	Dir      string
-	Fset     *token.FileSet
-	Pkgs     []*packages.Package          // module packages only
-	ByPath   map[string]*packages.Package // all packages (incl. deps)
-	SSA      *ssa.Program
-	SSAPkgs  map[string]*ssa.Package
-	cg       *callgraph.Graph
-	Tests    bool
-	GOARCH   string
-	NModule  int
-	NAll     int
-	allFuncs map[*ssa.Function]bool
+	Dir            string
+	Fset           *token.FileSet
+	Pkgs           []*packages.Package          // module packages only
+	ByPath         map[string]*packages.Package // all packages (incl. deps)
+	SSA            *ssa.Program
+	SSAPkgs        map[string]*ssa.Package
+	cg             *callgraph.Graph
+	Tests          bool
+	GOARCH         string
+	NModule        int
+	NAll           int
+	allFuncs       map[*ssa.Function]bool
+	Inlined        []Inlined
+	inlinedCallees map[*ssa.Function]bool
 }
 
 type Options struct {
@@ -99,6 +103,25 @@ func Load(opt Options) (*Prog, error) {
 	prog, ssapkgs := ssautil.AllPackages(pkgs, ssa.InstantiateGenerics)
 	prog.Build()
 	p.SSA = prog
+	if dump := os.Getenv("DCVERIF_DUMP_FUNCS"); dump != "" {
+		// (maintenance) write the list of module functions of this tree: the baseline of the inliner
+		var names []string
+		for f := range ssautil.AllFunctions(prog) {
+			if InModule(f) && f.Synthetic == "" {
+				var ps []string
+				for _, prm := range f.Params {
+					ps = append(ps, prm.Name())
+				}
+				names = append(names, FuncName(f)+"\t"+strings.Join(ps, ","))
+			}
+		}
+		sort.Strings(names)
+		_ = os.WriteFile(dump, []byte("# module functions of the reference tree; functions not listed here are inlined into their callers (see inline.go)\n"+strings.Join(names, "\n")+"\n"), 0o644)
+	} else if os.Getenv("DCVERIF_NO_INLINE") == "" {
+		all := ssautil.AllFunctions(prog)
+		p.Inlined = p.InlineNewFunctions(all)
+		ssax.ParamNames = p.CanonicalParamNames(all)
+	}
 	p.SSAPkgs = map[string]*ssa.Package{}
 	for i, sp := range ssapkgs {
 		if sp == nil {
@@ -177,6 +200,22 @@ func (p *Prog) CallGraph() *callgraph.Graph {
 	if p.cg == nil {
 		p.allFuncs = ssautil.AllFunctions(p.SSA)
 		p.cg = vta.CallGraph(p.allFuncs, cha.CallGraph(p.SSA))
+		// helpers that were expanded into all their callers no longer exist as far as the rules are concerned: their
+		// bodies are part of the callers now (counting them again would double every census)
+		for f := range p.inlinedCallees {
+			n := p.cg.Nodes[f]
+			live := false
+			if n != nil {
+				for _, e := range n.In {
+					if InModule(e.Caller.Func) && !p.inTestFile(e.Caller.Func) {
+						live = true
+					}
+				}
+			}
+			if !live {
+				delete(p.allFuncs, f)
+			}
+		}
 	}
 	return p.cg
 }
